@@ -87,6 +87,12 @@ def all_rows():
                                                                          ('passive', 'active-addr', 'active-dns')):
         attempt = local_can and peer_can
         blocked = require is not None and attempt != require
+        # contact header and SESS_INIT arriving in the same read
+        rows.append(dict(local_can=local_can, peer_can=peer_can, require=require, hs_ok=hs_ok, naming=naming,
+                         ip='match', dns='absent', uri='match', req_host=False, req_node=False, pipelined=True))
+        # the same policy read from a configuration document by Config.from_file() (false / null / true as written there)
+        rows.append(dict(local_can=local_can, peer_can=peer_can, require=require, hs_ok=hs_ok, naming=naming,
+                         ip='match', dns='absent', uri='match', req_host=False, req_node=False, via_file=True))
         if not attempt or blocked or not hs_ok:
             rows.append(dict(local_can=local_can, peer_can=peer_can, require=require, hs_ok=hs_ok, naming=naming,
                              ip='match', dns='absent', uri='match', req_host=False, req_node=False))
@@ -155,7 +161,8 @@ def run_row(row, obs):
     passive = row['naming'] == 'passive'
     peer_ip = '10.0.0.1' if passive else PEER_IP
     cfg = th.make_config('dtn://under-test/', tls_enable=row['local_can'], require_tls=row['require'],
-                         require_host_authn=row['req_host'], require_node_authn=row['req_node'], segment_size_tx_initial=10)
+                         require_host_authn=row['req_host'], require_node_authn=row['req_node'], segment_size_tx_initial=10,
+                         via_file=bool(row.get('via_file')))
     ctx = vnet.FakeSslContext(handshake_fails=not row['hs_ok'], peer_cert_der=(None if row.get('cert') == 'none' else make_cert(row['ip'], row['dns'], row['uri'], peer_ip)))
     cfg.get_ssl_context = lambda: ctx
     if passive:
@@ -180,7 +187,8 @@ def run_row(row, obs):
         return [m for (m, _e) in msgs], status
 
     write(tw.encode(dict(type='contact', flags=(tw.CAN_TLS if row['peer_can'] else 0) | row.get('extra_flags', 0))))
-    sim.settle(20000)
+    if not row.get('pipelined'):
+        sim.settle(20000)
     write(tw.encode(dict(type='SESS_INIT', keepalive=0, segment_mru=2 ** 20, transfer_mru=2 ** 30, nodeid=(b'' if row.get('announce') == 'empty' else PEER_NODE.encode('utf8')), ext=[])))
     sim.settle(20000)
     msgs, status = seen()
@@ -257,6 +265,23 @@ def run_row(row, obs):
         if sim.world.callback_errors:
             err = sim.world.callback_errors[0]
             problems.append(('raised', 'after the refusal: callback %s raised %s: %s' % (err.source, err.exc_type, str(err.exc)[:80]), {}))
+    # a later SESS_INIT on the same connection announcing another node id: judged afresh against the certificate, never accepted on the
+    # strength of the first one
+    if outcome == 'established' and want['secure'] and row['uri'] != 'absent' and not problems and row.get('announce') != 'empty':
+        obs['second_sess_init_probes'] = obs.get('second_sess_init_probes', 0) + 1
+        write(tw.encode(dict(type='SESS_INIT', keepalive=0, segment_mru=2 ** 20, transfer_mru=2 ** 30, nodeid=b'dtn://victim/', ext=[])))
+        sim.settle(20000)
+        if sim.world.callback_errors:
+            err = sim.world.callback_errors[0]
+            problems.append(('raised', 'second SESS_INIT: callback %s raised %s: %s' % (err.source, err.exc_type, str(err.exc)[:80]), {}))
+        elif not sock_e.closed and end.state() == 'established':
+            try:
+                params = dict(end.call('get_session_parameters'))
+            except Exception:  # pylint: disable=broad-except
+                params = {}
+            if str(params.get('peer_nodeid')) == 'dtn://victim/':
+                problems.append(('authn', 'a second SESS_INIT announcing dtn://victim/ was accepted: the session is established with peer_nodeid %r although '
+                                 'the certificate names %r' % (params.get('peer_nodeid'), PEER_NODE), {}))
     return problems, want
 
 
@@ -311,4 +336,4 @@ def _short(row):
     return 'can %s/%s req %s hs %s %s ip:%s dns:%s uri:%s host:%s node:%s' % (
         row['local_can'], row['peer_can'], row['require'], row['hs_ok'], row['naming'], row['ip'], row['dns'], row['uri'], row['req_host'], row['req_node']) + (
         ' announce:empty' if row.get('announce') == 'empty' else '') + (' flags+0x%02x' % row['extra_flags'] if row.get('extra_flags') else '') + (
-        ' cert:none' if row.get('cert') == 'none' else '')
+        ' cert:none' if row.get('cert') == 'none' else '') + (' via-file' if row.get('via_file') else '') + (' pipelined' if row.get('pipelined') else '')
